@@ -189,7 +189,7 @@ def run(ctx: Ctx):
 
 def replay(ctx: Ctx, data):
     case = data["case"]
-    g = (case["cfg"], False, [(case["path"], case["method"], case["q"])])
+    g = (case["cfg"], False, [(case["path"], case["method"], case["q"]) + ((case["how"],) if case.get("how") else ())])
     ctx.nontrivial.update({("replay", 0), ("replay", 1)})
     ctx.sample({"rules": case["rules_text"], "path": case["path"], "method": case["method"]})
     c03.judge_groups(ctx, [g], clauses=CLAUSES, kind="c12")
